@@ -634,6 +634,10 @@ class InterpBase:
                     if any(isinstance(k, tuple) for k in h.items):
                         raise Undecided('membership in a dict with an opaque spread')
                     return item.s in h.items
+                if isinstance(item, VRef) or (isinstance(item, VInt) and z3.is_int_value(item.e)):
+                    if any(isinstance(k, tuple) for k in h.items):
+                        raise Undecided('membership in a dict with an opaque spread')
+                    return self.pykey(item) in h.items
                 raise Undecided('symbolic key membership in concrete dict')
             if isinstance(h, HList):
                 cs = [self.eq(item, x) for x in h.items]
@@ -721,6 +725,8 @@ class InterpBase:
         if items is None and kind in ('list', 'gen') and type(it).__name__ == 'VIterView' and it.kind in ('values', 'keys') \
                 and isinstance(g.target, ast.Name) and isinstance(e.elt, ast.Name) and e.elt.id == g.target.id:
             return self.dictview_filter(e, g, it, fr)
+        if items is None and kind in ('gen', 'set') and type(it).__name__ == 'VIterView' and it.kind == 'values' and isinstance(g.target, ast.Name):
+            return self.valueset_comprehension(e, g, it, fr)
         if items is None and kind in ('list', 'gen') and isinstance(g.target, ast.Name) and isinstance(e.elt, ast.Name) \
                 and e.elt.id == g.target.id and (self.is_symlist(it) or isinstance(it, VSeq)):
             return self.filter_comprehension(e, g, it, fr)
@@ -765,6 +771,27 @@ class InterpBase:
         pz = p if isinstance(p, z3.ExprRef) else z3.BoolVal(bool(p))
         dom = z3.Lambda([kv], z3.And(z3.Select(h.dom, kv), pz))
         return ex.alloc(HSymSet(dom))
+
+    def valueset_comprehension(self, e, g, it, fr):
+        """{f(v) for v in d.values() if P(v)} over a symbolic dict, decided only when f is the inverse of the dict's own key map, i.e. f(d[k]) simplifies to k
+        (a worker registered under its own id, f = .id): then the result is {k | k in d and P(d[k])} as a lambda array.  Anything else is undecided."""
+        ex = self.ex
+        h = ex.heap[it.base.addr]
+        kv = z3.Const('__kbound__', Val)
+        sub = Frame(fr.fi, parent=fr, module=fr.module)
+        sub.self_cls, sub.owner = fr.self_cls, fr.owner
+        hint = h.vkind if isinstance(h.vkind, tuple) else None
+        sub.locals[g.target.id] = VSym(z3.Select(h.map, kv), hint=hint)
+        p = True
+        for c in g.ifs:
+            p = self.land(p, self.truth(self.eval(c, sub)))
+        pz = p if isinstance(p, z3.ExprRef) else z3.BoolVal(bool(p))
+        elt = self.eval(e.elt, sub)
+        from .values import lower
+        et = smt.simp(lower(elt, ex))
+        if not et.eq(kv):
+            raise Undecided(f'comprehension over the values of a symbolic dict at line {e.lineno}: the element expression is not the key of the value')
+        return ex.alloc(HSymSet(z3.Lambda([kv], z3.And(z3.Select(h.dom, kv), pz))))
 
     def dictview_filter(self, e, g, it, fr):
         """[v for v in d.values() if P(v)] over a symbolic dict: a symbolic list each of whose elements is a value of d
